@@ -137,7 +137,57 @@ def launch(cell):
     return {'v': out, 'n': 4, 'nt': cell if (on and mod and want_pt != t0c) else None, 'obs': [on, powder_c is None]}
 
 
-PARTS = {'calib': calib, 'same': same, 'launch': launch}
+def edit(cell):
+    """Ammo is a plain mutable object: after it has been used, editing mv / powder_temp / temp_modifier / the on-off flag must give what a freshly
+    built ammunition with those values gives (nothing derived from the old values may be remembered)"""
+    import py_ballisticcalc as pb
+    first_use, edits = cell
+    FPS, C = pb.Unit.FPS, pb.Unit.Celsius
+    dm = pb.DragModel(0.3, pb.TableG7)
+    vals = {'mv': 800.0, 'pt': 15.0, 'mod': 0.015, 'on': True}
+    a = pb.Ammo(dm, FPS(vals['mv']), C(vals['pt']), vals['mod'], vals['on'])
+    if first_use == 'query':
+        a.get_velocity_for_temp(C(0))
+    elif first_use == 'calib':
+        a.calc_powder_sens(FPS(780), C(0))
+        vals['mod'] = a.temp_modifier
+    elif first_use == 'fire':
+        pb.Calculator().fire(pb.Shot(pb.Weapon(pb.Unit.Inch(2)), a, atmo=pb.Atmo(temperature=C(30))), pb.Unit.Foot(3), pb.Unit.Foot(1))
+    out = []
+    for e in edits:
+        if e == 'mv':
+            vals['mv'] = 850.0
+            a.mv = FPS(850.0)
+        elif e == 'pt':
+            vals['pt'] = 5.0
+            a.powder_temp = C(5.0)
+        elif e == 'mod':
+            vals['mod'] = 0.03
+            a.temp_modifier = 0.03
+        elif e == 'off':
+            vals['on'] = False
+            a.use_powder_sensitivity = False
+        elif e == 'recalib':
+            a.calc_powder_sens(FPS(vals['mv'] - 30), C(vals['pt'] - 20))
+            ref = pb.Ammo(dm, FPS(vals['mv']), C(vals['pt']), vals['mod'], vals['on'])
+            vals['mod'] = ref.calc_powder_sens(FPS(vals['mv'] - 30), C(vals['pt'] - 20))
+        fresh = pb.Ammo(dm, FPS(vals['mv']), C(vals['pt']), vals['mod'], vals['on'])
+        for qc in (-20.0, 0.0, vals['pt'], 40.0):
+            got, exp = a.get_velocity_for_temp(C(qc)) >> FPS, fresh.get_velocity_for_temp(C(qc)) >> FPS
+            if abs(got - exp) > 1e-9 * abs(exp):
+                out.append({'msg': f'ammunition first used by {first_use}, then edited {edits[:edits.index(e) + 1]}: v({qc} C) = {got!r}, a freshly built ammunition with the same values gives {exp!r}', 'key': None})
+                break
+        shot = pb.Shot(pb.Weapon(pb.Unit.Inch(2)), a, atmo=pb.Atmo(temperature=C(30)))
+        v0 = pb.Calculator().fire(shot, pb.Unit.Foot(3), pb.Unit.Foot(1)).trajectory[0].velocity >> FPS
+        exp0 = fresh.get_velocity_for_temp(C(30)) >> FPS
+        if abs(v0 - exp0) > 1e-9 * abs(exp0):
+            out.append({'msg': f'ammunition first used by {first_use}, then edited {edits[:edits.index(e) + 1]}: solver launches with {v0!r} fps, fresh ammunition gives {exp0!r}', 'key': None})
+        if out:
+            break
+    return {'v': out[:2], 'n': len(edits) * 5, 'nt': cell if edits else None}
+
+
+PARTS = {'calib': calib, 'same': same, 'launch': launch, 'edit': edit}
 
 
 def plan(tier):
@@ -149,4 +199,6 @@ def plan(tier):
     sm = [[v, w] for v in v0s for w in ('v', 'T', 'both')]
     la = [list(c) for c in itertools.product([0.0, 0.015, -0.01], v0s, [15.0, 0.0], [15.0, -20.0, 35.0], [None, 15.0, 40.0, 0.0],
                                              [True, False])]
-    return [('calib', cal), ('same', sm), ('launch', la)]
+    eds = ['mv', 'pt', 'mod', 'off', 'recalib']
+    ed = [[f, list(e)] for f in ('none', 'query', 'calib', 'fire') for d in (1, 2) for e in itertools.permutations(eds, d)]
+    return [('calib', cal), ('same', sm), ('launch', la), ('edit', ed)]
